@@ -12,6 +12,7 @@ const (
 	uIsReady  string = "isready"
 	uPosition string = "position"
 	uStartpos string = "startpos"
+	uFen      string = "fen"
 	uMoves    string = "moves"
 
 	uGo        string = "go"
@@ -400,6 +401,10 @@ func parsePosition(positionWithoutMoves string) bool {
 	if strings.HasPrefix(positionWithoutMoves, uStartpos) {
 		posGen = NewGenerator()
 	} else {
+		// standard form is 'position fen <fenstring>'; a bare FEN is accepted as well
+		if fenString, hasKeyword := strings.CutPrefix(positionWithoutMoves, uFen+" "); hasKeyword {
+			positionWithoutMoves = strings.TrimSpace(fenString)
+		}
 		newPosGen, err := NewGeneratorFromFen(positionWithoutMoves)
 		if err != nil {
 			fmt.Println("invalid FEN:", err)
